@@ -303,7 +303,10 @@ def run_seq(acc, rnd, nops, cid):
             got = outcome(lambda: [str(k) for k, _ in c.items()])
             expect(op, got, ("ret", [tt for tt, _ in m]))
         elif op == "badtag":
-            bad = rnd.choice(["abc", "", "1.5", 1.5, None, "1e3", "0x10", "１２", "--1"])
+            from decimal import Decimal
+            tn = int(rnd.choice(TAGS))
+            # also: objects that EQUAL an integer tag some container of this process has used (same hash), but are not integers
+            bad = rnd.choice(["abc", "", "1.5", 1.5, None, "1e3", "0x10", "１２", "--1", float(tn), Decimal(f"{tn}.0"), float(tn) + 0.5, f"{tn}.0", complex(tn, 0)])
             if bad == "１２":
                 continue  # full-width digits: int() accepts them; 'non-canonical spelling' is unspecified
             before = walk(c)
